@@ -51,5 +51,12 @@ for d in sorted(os.listdir(SEEDED)):
                         'demonstration fails with the change and passes without it; library imports'
                         + ('' if suite is None else '; NOTE: the existing suite does NOT pass with this change'),
     }
+    note = os.path.join(SEEDED, d, 'NOTE.txt')
+    if os.path.exists(note):
+        meta['note'] = open(note).read().strip()
+    if suite and suite.get('earlier_attempt'):
+        meta['what_i_ran']['existing_suite_with_change']['earlier_attempt'] = suite['earlier_attempt']
+    if os.path.exists(os.path.join(SEEDED, d, 'patch_original_before_fix.diff')):
+        meta['rebased'] = 'patch.diff is the change re-based onto the /repo HEAD named above (fix: commits touched the same lines); the author\'s diff is patch_original_before_fix.diff'
     json.dump(meta, open(os.path.join(SEEDED, d, 'meta.json'), 'w'), indent=1)
     print(d, 'caught_by', meta['caught_by'], 'suite', (suite or {}).get('suite_rc'))
